@@ -462,7 +462,7 @@ func (v *Verifier) verifyFunc(key string) (rep *FuncReport) {
 	entry := st.clone()
 	st.old = entry
 	outs := fx.execBlock(st, body.List)
-	canaries := 0
+	var canary *Obligation
 	for _, o := range outs {
 		if o.kind == kPanic {
 			continue
@@ -508,10 +508,15 @@ func (v *Verifier) verifyFunc(key string) (rep *FuncReport) {
 			}
 			fx.frameObligations(fs, entry, spec, fd.pkg)
 		}
-		if canaries < 2 {
-			canaries++
-			fx.obls = append(fx.obls, &Obligation{Name: fmt.Sprintf("%s/vacuity:canary%d", key, canaries), Kind: "vacuity", Assume: append([]string(nil), fs.pc...), Goal: "false", Func: key, Expect: "not-unsat"})
+		// canary: 'false' must not be provable at the exits (some exit is reachable)
+		if canary == nil {
+			canary = &Obligation{Name: key + "/vacuity:exit_reachable", Kind: "vacuity", Assume: append([]string(nil), fs.pc...), Goal: "false", Func: key, Expect: "not-unsat"}
+		} else if len(canary.Cases) < 40 {
+			canary.Cases = append(canary.Cases, OblCase{Assume: append([]string(nil), fs.pc...), Goal: "false"})
 		}
+	}
+	if canary != nil {
+		fx.obls = append(fx.obls, canary)
 	}
 	return
 }
